@@ -143,6 +143,45 @@ def unsound(parent, ref):
     return None
 
 
+def check_z_variants(res, v, name, tree):
+    """one segment the structure does not list (ZZZ) after every position of the all-children instance: the group finder
+    must still place every segment (the Z segment goes where the finder stands), keep the order, and encode as with
+    group-finding off"""
+    from hl7apy.parser import parse_message
+    names = st.flatten(tree)
+    if not names or names[0] != 'MSH':
+        names = ['MSH'] + [n for n in names if n != 'MSH']
+    for p in range(1, len(names) + 1):
+        zn = names[:p] + ['ZZZ'] + names[p:]
+        text = '\r'.join([st.msh_line(v, name)] + zn[1:])
+        point = {'v': v, 'name': name, 'label': 'all', 'z_at': p}
+        res.evaluations += 1
+        res.enumerated += 1
+        res.states += 1
+        res.transitions += 2
+        res.nontrivial += 1
+        try:
+            flat = parse_message(text, validation_level=TOLERANT, find_groups=False)
+        except Exception:
+            res.blocked['Z variant refused with group-finding off'] += 1
+            continue
+        try:
+            m = parse_message(text, validation_level=TOLERANT, find_groups=True)
+        except Exception as e:
+            res.violation('z-raises|%s|%s|%s' % (v, name, exc_class(e)), 'all-children instance of %s (v%s) with ZZZ after segment %d (%s, next %s): group-finding on '
+                          'raises %s: %s; group-finding off parses it' % (name, v, p, names[p - 1], names[p] if p < len(names) else '-', exc_class(e), str(e)[:160]), point, len(zn))
+            continue
+        res.validated += 1
+        flatnames = [x.name for x in st.parsed_flat(m)]
+        if flatnames != zn:
+            res.violation('z-%s|%s|%s' % ('drop' if len(flatnames) < len(zn) else 'order', v, name), 'all-children instance of %s (v%s) with ZZZ after segment %d: '
+                          'input %s, tree flattens to %s' % (name, v, p, zn, flatnames), point, len(zn))
+        elif m.to_er7() != flat.to_er7():
+            res.violation('z-encoding-differs|%s|%s' % (v, name), 'find_groups on/off encode differently with ZZZ after segment %d: %r vs %r'
+                          % (p, m.to_er7(), flat.to_er7()), point, len(zn))
+        res.dims['Z-segment variants'] += 1
+
+
 def units(tier):
     us = []
     for v in VERSIONS:
@@ -207,6 +246,8 @@ def run_unit(unit, tier):
                 continue
             n += 1
             check_instance(res, v, name, label, tree)
+            if label == 'all' and (tier != 'quick' or sum(map(ord, name)) % 3 == 0):
+                check_z_variants(res, v, name, tree)
         if n:
             res.sample({'v': v, 'structure': name, 'instances': n}, cap=3)
     res.expected_size = res.enumerated
@@ -223,4 +264,7 @@ def replay(point, res):
     v, name = point['v'], point['name']
     for label, tree in st.instances(v, name):
         if label == point['label']:
-            check_instance(res, v, name, label, tree)
+            if 'z_at' in point:
+                check_z_variants(res, v, name, tree)
+            else:
+                check_instance(res, v, name, label, tree)
